@@ -18,10 +18,10 @@
      - C07_move_outcome: per decision: Copy -> the slot is now at the proposed destination with its
        size, alignment, kind, tag unchanged; Ignore -> unchanged; Destroy -> gone; every temporary
        is gone; slots not named in any move are untouched.  The pass completes without error.
-     - C07_complete_pass_wf / C07_wstep_preserves / C07_world_init: the invariant holds again at
-       every pass boundary, and along arbitrary histories of the harness protocol (user operations
-       at any time, BEGIN with fresh or reused context, PASS, END with any decisions) as long as
-       no collecting pass panics (see OPEN in DefragProofs.v; a completing pass cannot fail).
+     - C07_complete_pass_wf / C07_wstep_preserves / C07_wstep_safe / C07_world_init: the invariant
+       holds again at every pass boundary, and along arbitrary histories of the harness protocol
+       (user operations at any time, BEGIN with fresh or reused context, PASS, END with any
+       decisions); no operation of such a history panics (collect, complete, user alloc/free).
    What remains for the vam wrapper (vam/defrag.go and allocation.go: several block lists with
    blockListProgress, Allocation.swapBlockAllocation incl. the device memory object and map
    reference counts, the write lock on the source allocations, freeing of emptied device memory
@@ -100,10 +100,19 @@ Theorem C07_wstep_preserves : forall w o,
 Proof. exact wstep_preserves. Qed.
 Print Assumptions C07_wstep_preserves.
 
+Theorem C07_wstep_safe : forall w o,
+  WInv w -> algo_ok w -> w_dead w = false ->
+  WInv (fst (wstep w o)) /\ algo_ok (fst (wstep w o)) /\ w_dead (fst (wstep w o)) = false.
+Proof. exact wstep_safe. Qed.
+Print Assumptions C07_wstep_safe.
+
 Theorem C07_world_init : forall sizes sentinel,
   Forall (fun s => 1 <= s < 2 ^ 39) sizes -> WInv (world_init sizes sentinel).
 Proof. exact world_init_inv. Qed.
 Print Assumptions C07_world_init.
+
+Theorem C07_world_init_algo : forall sizes sentinel, algo_ok (world_init sizes sentinel).
+Proof. exact world_init_algo. Qed.
 
 (* non-vacuity: a well-formed fragmented two-block state whose first pass proposes three moves
    (so the statements above speak about real moves), and the meaning of `outcomes` for one move *)
@@ -111,7 +120,7 @@ Example C07_nonvacuous :
   WF ex_world /\
   length (cs_moves (fst (collect_moves ex_world (ctx_init (mkC 0 [] 0) 2) (pass_init max_int max_int)))) = 3%nat /\
   snd (collect_moves ex_world (ctx_init (mkC 0 [] 0) 2) (pass_init max_int max_int)) = WCont.
-Proof. exact (conj ex_world_wf ex_collect_three). Qed.
+Proof. split; [exact ex_world_wf|exact ex_collect_three]. Qed.
 
 Example C07_outcomes_meaning : forall st0 st' m d,
   outcomes st0 st' [m] [d] <->
